@@ -38,6 +38,10 @@ treats a stored syllable field that is not such a value differently: `Trie::new`
 predicate is false for it.  None of this can happen on a written file: the keys given to `insert` are
 `&[Syllable]`, i.e. valid codes (`ValidEntry`), and the syllable field of a node record is the syllable of the
 builder node (`validate_write`, `writeLoop_syls`); all theorems keep their conclusions.
+
+The ORDER of `entries()` (last section): `entries_correct` / `C11_full` say "each (key, phrase) once"; `entries_order`
+gives the enumeration as a list — keys in `Cli.trieOrder` (sorted by syllable code with a prefix first, maximal prefix
+chains reversed: the depth-first walk pops its results deepest first), each key with its leaf in written order.
 -/
 namespace Chewing.C11
 open Chewing Chewing.Der Chewing.TrieCodec
